@@ -40,7 +40,7 @@ func (cs dataCase) sample() map[string]any {
 }
 
 func init() {
-	for _, n := range []string{"access-paths", "unsupported", "not-modified", "fixed-shapes"} {
+	for _, n := range []string{"access-paths", "unsupported", "not-modified", "fixed-shapes", "names"} {
 		harness.RegisterReplayer("C12/"+n, func(raw json.RawMessage) string {
 			cs, err := unJSON[dataCase](raw)
 			if err != nil {
@@ -406,5 +406,65 @@ func TestC12_NotModified(t *testing.T) {
 		if f := c12Run(c, cs); f != "" {
 			c.Fail(rt, kindOf(f), cs, "data unchanged", f, f)
 		}
+	})
+}
+
+// c12Keywords are words the language reserves: not usable as variable names.
+var c12Keywords = map[string]bool{"in": true, "true": true, "false": true, "nil": true, "loop": true}
+
+// TestC12_Names: a map's keys and a struct's fields are reachable by name for
+// every name of the identifier alphabet, not only the ones the other checks use.
+func TestC12_Names(t *testing.T) {
+	c := harness.New(t, "C12", "names",
+		"names over the whole identifier alphabet ([A-Za-z_][A-Za-z0-9_]*): exhaustively every single letter and '_', every letter followed by each of {a, z, A, Z, 0, 9, _}, and random names of 3..10 characters; each used as a variable of the data map ({{ n }}), as a key of a string-keyed map through dot and index syntax ({{ m.n }}, {{ m[\"n\"] }}), as the second step of a path ({{ m.inner.n }}) and, when it starts with an upper-case letter, as a struct field (exact and with the first letter lower-cased); the value is a distinct integer per name and must be printed. Names that are words of the language (in, true, false, nil, loop) are left out. Non-trivial: all. Distinct by construction / hash of the name.")
+	defer c.Finish()
+	letters := "abcdefghijklmnopqrstuvwxyzABCDEFGHIJKLMNOPQRSTUVWXYZ"
+	var names []string
+	for _, l := range letters {
+		names = append(names, string(l))
+		for _, m := range "azAZ09_" {
+			names = append(names, string(l)+string(m))
+		}
+	}
+	names = append(names, "_", "_a", "_Z", "_0", "__", "a_b_c", "x1y2z3")
+	n := 0
+	run := func(tb harness.TB, name string, enum bool) {
+		if c12Keywords[name] {
+			return
+		}
+		n++
+		val := int64(1000 + n)
+		iv := spec.IntOf(spec.TInt, val)
+		inner := spec.Map(spec.T(spec.TInt), []string{name}, []*spec.Value{iv})
+		data := (&spec.Data{}).Add(name, iv).Add("m0", spec.Map(spec.T(spec.TAny), []string{name, "inner"}, []*spec.Value{spec.Any(iv), spec.Any(inner)}))
+		exprs := []string{name, "m0." + name, `m0["` + name + `"]`, "m0.inner." + name, `m0["inner"]["` + name + `"]`}
+		if name == "m0" {
+			return
+		}
+		if name[0] >= 'A' && name[0] <= 'Z' {
+			data.Add("st0", spec.Struct([]string{name}, []*spec.Value{iv}))
+			exprs = append(exprs, "st0."+name, "st0."+lowerFirst(name), `st0["`+lowerFirst(name)+`"]`)
+		}
+		for _, e := range exprs {
+			cs := dataCase{Data: data, Src: "[{{ " + e + " }}]", Expect: "int", I: val, Note: "name " + name}
+			if enum {
+				c.CaseEnum(true, "form:"+strings.Replace(e, name, "N", -1))
+			} else {
+				c.Case(true, e, "form:"+strings.Replace(e, name, "N", -1))
+			}
+			if n%40 == 0 {
+				c.Sample(cs.sample())
+			}
+			if f := c12Run(c, cs); f != "" {
+				c.Fail(tb, kindOf(f), cs, cs.Expect, f, f)
+			}
+		}
+	}
+	for _, name := range names {
+		run(t, name, true)
+	}
+	c.ExhaustivePart(fmt.Sprintf("%d names: single letters and letter + {a,z,A,Z,0,9,_}", len(names)))
+	runRapid(t, c, 300, 3000, func(rt *rapid.T) {
+		run(rt, rapid.StringMatching(`[A-Za-z_][A-Za-z0-9_]{2,9}`).Draw(rt, "name"), false)
 	})
 }
